@@ -40,6 +40,11 @@ struct Pattern
         case 6: v = static_cast<long double>(n - i) / n; break;                                                   // descending
         case 7: v = 0.1L; break;                                                                                  // equal, not representable
         case 8: v = (i % 3 == 0) ? 0.0L : eps / 3 * (i % 7 + 1) + ((i % 1000 == 1) ? 1.0L : 0.0L); break;     // zeros mixed in, rare large
+        case 10:                                                                                                  // subnormal values of either sign (scale ignored)
+        {
+            T const r = static_cast<T>(1 + vf::mix2(seed, i) % 1000) * std::numeric_limits<T>::denorm_min() * ((vf::mix2(seed, i) >> 20 & 1) ? T(-1) : T(1));
+            return negate ? -r : r;
+        }
         default: v = std::pow(10.0L, 8 * vf::stream_unit(seed, i)); break;                                        // positive, 8 decades
         }
         T r = static_cast<T>(v) * scale;
@@ -48,7 +53,7 @@ struct Pattern
     char const* name() const
     {
         static char const* const names[] = {"ones", "one-large-many-small", "alternating-cancel", "geometric-decay", "random-magnitudes",
-            "ascending", "descending", "equal-0.1", "zeros-and-rare-large", "positive-8-decades"};
+            "ascending", "descending", "equal-0.1", "zeros-and-rare-large", "positive-8-decades", "subnormal"};
         return names[kind];
     }
 };
@@ -121,7 +126,8 @@ template <typename T>
 bool within(vf::Ctx& c, T reported, vf::ExactSum<T> const& exact, long double factor, std::size_t n, char const* sig, std::string const& what)
 {
     long double const eps = vf::eps<T>();
-    long double const bound = (4 * eps + 4 * n * eps * eps) * exact.abs_sum() * factor + 2 * eps * std::fabs(exact.value() * factor);
+    // (one unit in the last place of the subnormal range for the division by the bin size)
+    long double const bound = (4 * eps + 4 * n * eps * eps) * exact.abs_sum() * factor + 2 * eps * std::fabs(exact.value() * factor) + std::numeric_limits<T>::denorm_min();
     long double const err = std::fabs(static_cast<long double>(reported) - exact.value() * factor);
     c.note_margin(bound, err);
     VF_CHECK(c, err <= bound, sig, what << ": reported " << vf::show(reported) << ", exact " << vf::show<long double>(exact.value() * factor)
@@ -153,7 +159,7 @@ void run_t(vf::Ctx& c)
     case 3: n = maxn / 10 + t.range(0, maxn - maxn / 10); break;
     default: n = 1000 + t.range(0, 30000); break;
     }
-    s.pat.kind = static_cast<int>(t.pick(10));
+    s.pat.kind = static_cast<int>(t.pick(11));
     s.pat.n = n;
     s.pat.seed = t.stream_seed();
     s.pat.negate = t.pick(3) == 0;
